@@ -13,6 +13,7 @@ import Iodata.Drv.IOData
 import Iodata.Drv.Inputs
 import Iodata.Drv.Orbitals
 import Iodata.Drv.Overlap
+import Iodata.Drv.Prepare
 import Iodata.Drv.Segment
 import Iodata.Drv.Select
 import Iodata.Drv.Traj
@@ -20,7 +21,7 @@ import Iodata.Drv.Units
 import Iodata.Drv.Wf
 
 def handlers : List (List String → Option String) :=
-  [Iodata.Drv.C07R.handle, Iodata.Drv.Cascade.handle, Iodata.Drv.Cli.handle, Iodata.Drv.Conv.handle, Iodata.Drv.Flow.handle, Iodata.Drv.Fmt.handle, Iodata.Drv.FmtR.handle, Iodata.Drv.FmtW.handle, Iodata.Drv.Helpers.handle, Iodata.Drv.IOData.handle, Iodata.Drv.Inputs.handle, Iodata.Drv.Orbitals.handle, Iodata.Drv.Overlap.handle, Iodata.Drv.Segment.handle, Iodata.Drv.Select.handle, Iodata.Drv.Traj.handle, Iodata.Drv.Units.handle, Iodata.Drv.Wf.handle]
+  [Iodata.Drv.C07R.handle, Iodata.Drv.Cascade.handle, Iodata.Drv.Cli.handle, Iodata.Drv.Conv.handle, Iodata.Drv.Flow.handle, Iodata.Drv.Fmt.handle, Iodata.Drv.FmtR.handle, Iodata.Drv.FmtW.handle, Iodata.Drv.Helpers.handle, Iodata.Drv.IOData.handle, Iodata.Drv.Inputs.handle, Iodata.Drv.Orbitals.handle, Iodata.Drv.Overlap.handle, Iodata.Drv.Prepare.handle, Iodata.Drv.Segment.handle, Iodata.Drv.Select.handle, Iodata.Drv.Traj.handle, Iodata.Drv.Units.handle, Iodata.Drv.Wf.handle]
 
 def respond (line : String) : String :=
   let ws := (line.splitOn " ").filter (· ≠ "")
